@@ -194,6 +194,17 @@ Definition op_set (t v : Z) (s : tsd) : res :=
    parent.notify_child_modified, i.e. record_modified on THIS node and, when that
    returns true, onwards.  Finally: observers.notify; parent.notify_child_modified;
    last_modified_time = MIN_DT.  Returns (tree, notify-parent?, did-anything?). *)
+Definition inv_kids (inv : tsd -> tsd * bool * bool) (t fk : Z) :=
+  fix go (n : nat) (k : trk) (bits : Z) (l : list tsd) : trk * Z * list tsd :=
+    match l with
+    | [] => (k, bits, [])
+    | c :: r =>
+      let '(c', up, _) := inv c in
+      let '(k1, _) := notify_parent t up k in
+      let '(k2, bits2, r') := go (S n) k1 (if up then set_bit fk n bits else bits) r in
+      (k2, bits2, c' :: r')
+    end.
+
 Fixpoint inv_tree (t : Z) (s : tsd) : tsd * bool * bool :=
   if lmt_of s =? MIN_DT then (s, false, false) else
   match s with
@@ -211,16 +222,7 @@ Fixpoint inv_tree (t : Z) (s : tsd) : tsd * bool * bool :=
     let '(k', kids') := go k kids in
     (Dict (mkTrk MIN_DT (ncnt k' + 1)) e kids', true, true)
   | Fix k fk bits kids =>
-    let fix go (n : nat) (k : trk) (bits : Z) (l : list tsd) : trk * Z * list tsd :=
-      match l with
-      | [] => (k, bits, [])
-      | c :: r =>
-        let '(c', up, _) := inv_tree t c in
-        let '(k1, _) := notify_parent t up k in
-        let '(k2, bits2, r') := go (S n) k1 (if up then set_bit fk n bits else bits) r in
-        (k2, bits2, c' :: r')
-      end in
-    let '(k', bits', kids') := go 0%nat k bits kids in
+    let '(k', bits', kids') := inv_kids (inv_tree t) t fk 0%nat k bits kids in
     (Fix (mkTrk MIN_DT (ncnt k' + 1)) fk bits' kids', true, true)
   end.
 
